@@ -370,7 +370,7 @@ fn cmd_check(a: &[String]) -> i32 {
     // C06: signer-fault enumeration along sampled histories — every signing call of slot 0 of every node
     let mut n_enum = 0usize;
     if prop == "C06" {
-        let sample = if args.thorough { 1_000 } else { 100 };
+        let sample = if args.thorough { 400 } else { 100 };
         let mut extra = Vec::new();
         for i in 0..sample.min(n_seeded) {
             if let Job::Seeded(seed) = jobs[i] {
